@@ -14,7 +14,7 @@ import itertools
 
 from rulekit import Facts, where, proj_names
 from rulekit.sym import PathEval, show
-from rulekit.query import guards_of, recv_fields, option_test
+from rulekit.query import closure_of_term, guards_of, recv_fields, option_test
 
 SF = "tracing_subscriber::filter::subscriber_filters::"
 FILTERED = "<%sFiltered<S, F, C> as tracing_subscriber::subscribe::Subscribe<C>>::" % SF
@@ -44,6 +44,7 @@ def run(ck):
     ck.rule("C07.R4", "filter ids are distinct single bits assigned in on_subscribe", floor=4)
     ck.rule("C07.R5", "bitmap typestate: every protocol run ends all-clear and delivers iff accepted", floor=100)
     ck.rule("C07.R5s", "effect summaries extracted from MIR match a recognised shape", floor=9)
+    ck.rule("C07.R7", "Vec<S> claims to be per-layer-filtered only if every element is", floor=1)
     ck.rule("C07.R6", "per-layer filter combinators (And/Or/Not/Option) publish sound interests and level hints (as C08.R1/R2)", floor=10)
     r1(ck, F)
     r2(ck, F)
@@ -56,6 +57,7 @@ def run(ck):
     from rules import C08
     C08.r1(ck, F, rid="C07.R6")
     C08.r2(ck, F, rid="C07.R6")
+    r7(ck, F)
 
 
 # ------------------------------------------------------------------ R1
@@ -643,3 +645,57 @@ def r5(ck, R):
                                    "run [%s] from a clean bitmap delivers to layers %s, expected %s" % (inst, sorted(sim.delivered), sorted(want)))
                             continue
                     ck.ok("C07.R5", inst, detail=dict(final=sim.bits, delivered=sorted(sim.delivered)))
+
+
+def r7(ck, F):
+    """`Layered::pick_interest` replaces the interest a layer computed by the summed per-filter interest when the layer says
+    (through the downcast marker) that it is per-layer-filtered. A Vec of layers may say so only if ALL its elements are
+    filtered: with one unfiltered element the summed interest says nothing about that element, which then loses events
+    its siblings' filters reject (or a global filter inside the Vec can no longer veto)."""
+    b = F.impl_method("tracing_subscriber::subscribe::Subscribe", "alloc::vec::Vec<S>", "downcast_raw")
+    if not ck.anchor("C07.R7", "Vec<S>::downcast_raw", b):
+        return
+    key = "Vec<S>::downcast_raw answers the psf marker with None as soon as one element is unfiltered"
+    rows = []
+    for p in PathEval(b).run():
+        if p.end != "return":
+            continue
+        marker = [c for c in p.conds if show(c[0]).startswith("is_psf_downcast_marker(")]
+        if not marker or marker[0][1] == 0:
+            continue
+        quant = None
+        for c in p.conds:
+            t = c[0]
+            if t[0] == "call" and t[1].rsplit("::", 1)[-1] in ("any", "all") and len(t[2]) == 2:
+                cb = F.body(closure_of_term(t[2][1]) or "")
+                rets = {show(q.ret) for q in PathEval(cb).run() if q.end == "return"} if cb else set()
+                quant = (t[1].rsplit("::", 1)[-1], sorted(rets), c[1] != 0)
+        rows.append((quant, show(p.ret)))
+    ok = bool(rows)
+    why = "no path tests the per-layer-filter marker"
+    for quant, ret in rows:
+        if quant is None:
+            ok, why = False, "the marker is answered without looking at every element"
+            continue
+        q, pred, taken = quant
+        unfiltered_exists = None
+        if pred and pred[0].startswith("is_none(downcast_raw("):
+            unfiltered_exists = taken if q == "any" else None          # any(is_none) true  <=> some element unfiltered
+            if q == "all":
+                ok, why = False, "the marker is refused only when ALL elements are unfiltered (all(is_none)): a Vec mixing filtered and unfiltered layers claims to be per-layer-filtered"
+                continue
+        elif pred and pred[0].startswith("is_some(downcast_raw("):
+            if q == "all":
+                unfiltered_exists = not taken                            # all(is_some) false <=> some element unfiltered
+            else:
+                ok, why = False, "the marker is granted when ANY element is filtered (any(is_some)): a mixed Vec claims to be per-layer-filtered"
+                continue
+        else:
+            ok, why = False, "unrecognised element predicate %s" % pred
+            continue
+        if unfiltered_exists and not ret.startswith("Option::None"):
+            ok, why = False, "with an unfiltered element the marker is answered %s instead of None" % ret[:60]
+    if ok:
+        ck.ok("C07.R7", key, fn=b.path, detail=[str(r) for r in rows])
+    else:
+        ck.bad("C07.R7", key, where(b.raw["sp"]), why, fn=b.path)
